@@ -23,6 +23,10 @@ CHECKS = {
                 text="UidRule (relation form of inner_insert/inner_remove) is model-checked for UidDistinct/UidSetExact/UidStable; real histories with colliding ids are validated with the bookkeeping set exposed by hook H2.",
                 note="Trusted: hook H2 returns the real bookkeeping set; fresh ids recognised by first sight.",
                 technique="TLA+ UidRule relation + TLC + trace validation with hook-exposed bookkeeping set"),
+    "C18": dict(level="model_checking", ref="§4 C18, §2.4",
+                text="TLC checks SharedString.tla for every interleaving of 3-4 threads (DataIntact, Dedup, EmptyAtQuiescence, deadlock freedom, liveness of the release window); every maximal interleaving of the 2-thread model is executed by real threads parked by hook H1 and validated step by step with the complete intern-table state; barrier snapshots of free-running threads must satisfy all invariants.",
+                note="Trusted: hook H1 placement (between Arc::into_inner and the table lock), TLC, thread/op bounds of the model; Arc internals are not modelled below the strong count.",
+                technique="TLA+ spec SharedString.tla + TLC + deterministic schedule replay on real threads + trace validation"),
 }
 
 ORDER = ["C%02d" % i for i in range(1, 19)]
